@@ -230,7 +230,7 @@ def _fullstack_child(case, inc, spec, rundir, outpath):
         clock = SS._ClockShim(k)
         R.time = clock
         T.time = clock
-        EB.os = SS._OsShim(getpid=lambda: 4242)
+        EB.os = SS._OsShim(getpid=lambda: 3141592)
         real_run_md = T.run_md
 
         def run_md_boundary(md):
